@@ -809,7 +809,8 @@ class World:
             self.canary.apply(self)
         warnings_ctx = warnings.catch_warnings()
         warnings_ctx.__enter__()
-        warnings.simplefilter("ignore")
+        # (a process may run with warnings turned into errors: python -W error, pytest filterwarnings=error)
+        warnings.simplefilter("error" if (self.prop == "C19" and self.knobs.get("warnings_error")) else "ignore")
         self.sched.attach_client()
         self._tracer = None
         if self.knobs.get("fine_grained"):
